@@ -55,8 +55,9 @@ static const double DV[] = { 0.0, -0.0, 0.5, 1.5, 2.5, 999999999.5, 1e9, 1000000
     1e100, 9.9999996e99, 1e-100, 9.5e-100, 9.5e-10, 3.7e-7, 1e99, 9.99999e-5, 1e15, 123456789012345678.0 };
 #define NDV ((int)(sizeof DV / sizeof DV[0]))
 static const char *SV[] = { "", "abc", "a string of exactly forty characters !!!", "h\xc3\xa9llo" };
-static const wchar_t *WV[] = { L"", L"wide", L"\xe9\x20ac" };
-static const wint_t WCV[] = { L'A', 0xe9 };
+static const wchar_t WBAD[] = { L'o', L'k', 0xd800, L'x', 0 };     /* not convertible in any locale: printf fails with EILSEQ */
+static const wchar_t *WV[] = { L"", L"wide", L"\xe9\x20ac", WBAD };
+static const wint_t WCV[] = { L'A', 0xe9, 0xd800 };
 static const int CV[] = { 'A', '%', 0x7f };
 
 /* several directives in one format: integer-class arguments travel as longs, doubles as doubles (separate register
@@ -163,7 +164,24 @@ static const char *valcls(int type, Val v, char *b) {
 /* one directive with its value; isfloat selects the tolerant comparison */
 static void one(const char *fmt, int type, Val v, int ns, int s1, int s2, int isfloat, const char *cls, int vi, int tier) {
     char ref[700]; int n = call_ref(ref, sizeof ref, fmt, type, v, ns, s1, s2);
-    if (n < 0 || n >= (int)sizeof ref - 1) return;
+    if (n >= (int)sizeof ref - 1) return;
+    if (n < 0) {       /* printf itself fails on this argument (a wide character or string that cannot be converted): the library must fail too, not print something else */
+        if (strcmp(g_prop, "C11") && strcmp(g_prop, "C05")) return;
+        for (int entry = 0; entry < NENT; entry++) {
+            if (only_entry >= 0 && entry != only_entry) continue;
+            char cs[200]; snprintf(cs, sizeof cs, "%d %d %d %d %d %d %s", type, vi, s1, s2, 64, entry, fmt);
+            char dest[800]; memset(dest, 0x55, sizeof dest); FILE *fp = NULL; if (IS_STREAM(entry) && !IS_STDOUT(entry)) { fp = sfp; clearerr(fp); }
+            int r = 0, crashed = 0; h_n = 0; n_calls++;
+            if (sigsetjmp(jb, 1) == 0) { armed = 1; r = call_lib(entry, dest, 64, fp, fmt, type, v, ns, s1, s2); armed = 0; } else crashed = 1;
+            if (fp) { fflush(fp); fseek(fp, 0, SEEK_SET); if (ftruncate(sf_fd, 0)) {} }
+            if (IS_STDOUT(entry)) { fflush(stdout); if (ftruncate(so_fd, 0)) {} lseek(so_fd, 0, SEEK_SET); }
+            if (verbose) printf("entry %s: ret=%d handler=%d crashed=%d   libc: fails (n=%d)\n", ENT[entry], r, h_n, crashed, n);
+            if (crashed) { report(ENT[entry], "crash", cls, cs); return; }
+            if (!strcmp(g_prop, "C05")) { char w[48]; if (r < 0 && h_n != 1) { snprintf(w, sizeof w, "handler-invoked-%dx", h_n); report(ENT[entry], w, cls, cs); } continue; }
+            if (r >= 0) report(ENT[entry], "success-where-printf-fails", cls, cs);
+        }
+        return;
+    }
     n_formats++;
     size_t dms[8] = { 1, n > 1 ? n - 1 : 1, n ? n : 1, n + 1, n > 3 ? n / 2 : 1, n > 2 ? n - 2 : 1, n > 4 ? n - 4 : 1, 256 }; int ndm = tier ? 8 : 7;
     char vb[32], cs[200];
@@ -189,6 +207,12 @@ static void one(const char *fmt, int type, Val v, int ns, int s1, int s2, int is
             if (crashed) { report(ENT[entry], "crash", cls, cs); return; }
             if (!IS_STREAM(entry)) { int over = 0; for (size_t k = dmax; k < dmax + 200 && k < sizeof dest; k++) if ((unsigned char)dest[k] != 0x55) over = 1;
                 if (over) { report(ENT[entry], "write-beyond-dmax", cls, cs); break; } }
+            if (!strcmp(g_prop, "C05")) {      /* reporting sweep: a failing call reports exactly once, a succeeding one not at all */
+                char w[48];
+                if (r < 0 && h_n != 1) { snprintf(w, sizeof w, "handler-invoked-%dx", h_n); report(ENT[entry], w, cls, cs); }
+                else if (r >= 0 && h_n) { snprintf(w, sizeof w, "handler-but-success"); report(ENT[entry], w, cls, cs); }
+                break;
+            }
             if (strcmp(g_prop, "C11")) break;            /* memory-safety sweep: nothing else is judged */
             if (hist == 1) { done2 = 1; break; }
             int fits = IS_STREAM(entry) || (size_t)n < dmax;
@@ -289,11 +313,11 @@ int main(int argc, char **argv) {
                     if ((idx++ % nsh) != shard) continue;
                     for (int vi = 0; vi < 4; vi++) { Val v; v.s = SV[vi]; snprintf(fmt, sizeof fmt, "[%%%s%s%ss]", fl, WID[wi], PRE[pi]);
                         snprintf(cls, sizeof cls, "s,flags=%s,width=%s,prec=%s%s", fl[0] ? fl : "none", WID[wi][0] ? WID[wi] : "none", PRE[pi][0] ? PRE[pi] : "none", neg ? ",negative-star" : ""); one(fmt, T_STR, v, ns, a1, a2, 0, cls, vi, tier); }
-                    for (int vi = 0; vi < 3; vi++) { Val v; v.w = WV[vi]; snprintf(fmt, sizeof fmt, "[%%%s%s%sls]", fl, WID[wi], PRE[pi]);
+                    for (int vi = 0; vi < 4; vi++) { Val v; v.w = WV[vi]; snprintf(fmt, sizeof fmt, "[%%%s%s%sls]", fl, WID[wi], PRE[pi]);
                         snprintf(cls, sizeof cls, "ls,flags=%s,width=%s,prec=%s%s", fl[0] ? fl : "none", WID[wi][0] ? WID[wi] : "none", PRE[pi][0] ? PRE[pi] : "none", neg ? ",negative-star" : ""); one(fmt, T_WSTR, v, ns, a1, a2, 0, cls, vi, tier); }
                     if (pi == 0) {
                         for (int vi = 0; vi < 3; vi++) { Val v; v.i = CV[vi]; snprintf(fmt, sizeof fmt, "[%%%s%sc]", fl, WID[wi]); snprintf(cls, sizeof cls, "c,flags=%s,width=%s", fl[0] ? fl : "none", WID[wi][0] ? WID[wi] : "none"); one(fmt, T_CHAR, v, wi == WSTAR, a1, 0, 0, cls, vi, tier); }
-                        for (int vi = 0; vi < 2; vi++) { Val v; v.i = WCV[vi]; snprintf(fmt, sizeof fmt, "[%%%s%slc]", fl, WID[wi]); snprintf(cls, sizeof cls, "lc,flags=%s,width=%s", fl[0] ? fl : "none", WID[wi][0] ? WID[wi] : "none"); one(fmt, T_WINT, v, wi == WSTAR, a1, 0, 0, cls, vi, tier); }
+                        for (int vi = 0; vi < 3; vi++) { Val v; v.i = WCV[vi]; snprintf(fmt, sizeof fmt, "[%%%s%slc]", fl, WID[wi]); snprintf(cls, sizeof cls, "lc,flags=%s,width=%s", fl[0] ? fl : "none", WID[wi][0] ? WID[wi] : "none"); one(fmt, T_WINT, v, wi == WSTAR, a1, 0, 0, cls, vi, tier); }
                     }
                 }
             }
